@@ -1317,16 +1317,28 @@ func rulePoolMemoryStaysLocal(w *World, r *Report, rule string, inScope func(pkg
 					npool++
 				}
 			case *ssa.Store:
-				switch x.Addr.(type) {
+				switch a := x.Addr.(type) {
 				case *ssa.FieldAddr, *ssa.IndexAddr:
+					// objects of the tunnel's data path: DNS records and messages, decoded requests / responses, packets
+					// and queues. (A wrapper that owns a pooled buffer for its own lifetime and hands it back in its
+					// Close is a different pattern and not judged here.)
+					if fa, ok := a.(*ssa.FieldAddr); ok {
+						fv := fieldVarOf(fa)
+						if fv == nil || fv.Pkg() == nil || !(strings.HasPrefix(fv.Pkg().Path(), modPath+"/internal/streams/dns") || fv.Pkg().Path() == "github.com/miekg/dns") {
+							return
+						}
+					}
 					if isByteSliceOrPtr(x.Val.Type()) && poolOrigin(x.Val) {
 						bad = append(bad, fmt.Sprintf("%s: memory taken from a sync.Pool is stored into a field/element in %s: whatever keeps that reference reads (or is overwritten by) the next taker's data once the buffer is back in the pool", w.Pos(x.Pos()), ssaFuncKey(fn)))
 					}
 				}
 			case *ssa.Return:
-				for _, res := range x.Results {
-					if isByteSliceOrPtr(res.Type()) && poolOrigin(res) {
-						bad = append(bad, fmt.Sprintf("%s: memory taken from a sync.Pool is returned by %s", w.Pos(x.Pos()), ssaFuncKey(fn)))
+				// handing pooled memory out of an exported function of the data path (a codec or wrapper result)
+				if fn.Object() != nil && fn.Object().Exported() {
+					for _, res := range x.Results {
+						if isByteSliceOrPtr(res.Type()) && poolOrigin(res) {
+							bad = append(bad, fmt.Sprintf("%s: memory taken from a sync.Pool is returned by the exported %s", w.Pos(x.Pos()), ssaFuncKey(fn)))
+						}
 					}
 				}
 			}
